@@ -100,7 +100,39 @@ def run(ctx):
             server_sets.append(list(comb))
     # also a server ordering different from the client's preference
     server_sets.append(["OAUTHBEARER", "LOGIN", "PLAIN", "DIGEST-MD5"])
+    # names that only CONTAIN an implemented mechanism's name are other mechanisms
+    server_sets += [["PLAIN-CLIENTTOKEN"], ["X-LOGIN", "CRAM-MD5"], ["X-OAUTHBEARER", "PLAIN-CLIENTTOKEN", "LOGIN"], ["SCRAM-SHA-1", "X-PLAIN"]]
     prefs = [None] + list(ms_spec.SUPPORTED_MECHS) + ["CRAM-MD5", "plain"]
+    # what the client takes the announcement for: its own reading of the SASL capability, when the interpreter can follow it
+    gsm = R.methods.get("get_sasl_mechanisms")
+    try:
+        _cr0, cap_attr0 = capability_reader(R, connect_method(R, "U3"))
+    except AnalysisError:
+        cap_attr0 = None
+
+    def announced(srv):
+        if gsm is None or cap_attr0 is None:
+            return list(srv)
+        short = cap_attr0[len("_" + R.cls.name):] if cap_attr0.startswith("_" + R.cls.name + "__") else cap_attr0
+        env_ = dict(R.const_env(gsm.params[0]))
+        env_["%s.%s" % (gsm.params[0], short)] = fd.Const({"SASL": " ".join(srv), "IMPLEMENTATION": "x"})
+
+        def orc(interp, e, name, recv, args, kw, st):
+            fn = e.func
+            if isinstance(fn, ast.Name) and fn.id in R.module.funcs:
+                return fd.Inline(R.module.funcs[fn.id])
+            if name and name.startswith("self.") and name[5:] in R.methods and R.methods[name[5:]].node is not interp.f:
+                return fd.Inline(R.methods[name[5:]])
+            return None
+        try:
+            ps = fd.Interp(gsm.node, R.cls.name, orc, resolve=module_resolver(ctx.program, R.module), loop_unroll=20).run(env_)
+        except (fd.TooManyPaths, RecursionError):
+            return list(srv)
+        if len(ps) == 1 and ps[0].kind == "return" and isinstance(ps[0].value, fd.Const) and isinstance(ps[0].value.v, list) \
+                and all(isinstance(x, str) for x in ps[0].value.v):
+            return list(ps[0].value.v)
+        return list(srv)
+    seen_by_client = {tuple(s_): announced(s_) for s_ in server_sets}
     nruns = 0
     bad = None
     dispatched = set()
@@ -108,7 +140,7 @@ def run(ctx):
         for srv in server_sets:
             def oracle(interp, e, name, recv, args, kw, st, srv=srv):
                 if name == "self.get_sasl_mechanisms":
-                    return [(fd.Const(list(srv)), None)]
+                    return [(fd.Const(list(seen_by_client[tuple(srv)])), None)]
                 if name and name.startswith("self.") and name[5:] in R.methods and name[5:].endswith("_authentication"):
                     return [(fd.Const(True), ("try", name[5:], True)), (fd.Const(False), ("try", name[5:], False))]
                 if name and name.startswith("self.") and name[5:] not in R.methods and name[5:].endswith("_authentication"):
